@@ -35,6 +35,10 @@ func (g *Gen) lambda(depth int, named bool) (*Node, *fnInfo) {
 	wasLoop := g.inLoop
 	g.inLoop = 0
 	lam.Body = g.stmts(1+g.R.Intn(3), depth-1)
+	if g.F.Pipes && g.chance(15) {
+		// a function that consumes its value input
+		lam.Body.Ps = append(lam.Body.Ps, Stmt(Cmd(g.pick([]string{"all", "count"}))))
+	}
 	g.inLoop = wasLoop
 	if named {
 		g.inNamedFn--
@@ -144,10 +148,12 @@ func (g *Gen) failStmt(depth int) *Node {
 func (g *Gen) tryStmt(depth int) *Node {
 	n := &Node{T: "try"}
 	g.push(false)
+	g.inTry++
 	n.Body = g.stmts(1+g.R.Intn(2), depth-1)
 	if g.chance(60) {
 		n.Body.Ps = append(n.Body.Ps, g.thrower(depth))
 	}
+	g.inTry--
 	g.pop()
 	shape := g.R.Intn(10)
 	hasCatch := shape < 7
